@@ -488,8 +488,6 @@ func (self *VM) Wait() (coreNum uint, i *value.VmInterrupt) {
 					self.Cores.Cores = make([]Core, 0)
 					self.Cores.Lock.Unlock()
 
-					self.Cores.Lock.RLock()
-
 					return core.Corenum, i
 				}
 			default:
